@@ -77,10 +77,14 @@ func (w *worker) judgeCounted(q *query, c map[string]int64) *verdict {
 		c["cache_not_consulted"]++ // rejected before the transform, no FROM/JOIN, or the uncached header fast path
 	case h1-h0 > 0:
 		c["cache_cold_state_not_reached"]++
+		v.StaleHit = true
 	default:
 		c["cache_warm_state_not_reached"]++
 	}
 	v.finish(q.Ordered)
+	if v.StaleHit && v.Kind != "" {
+		v.Kind = crossPrefix + v.Kind
+	}
 	return v
 }
 
@@ -193,12 +197,13 @@ type minimizer struct {
 	w    *worker
 	memo map[string]string
 	runs int
+	pair bool // judge every candidate after the same text was requested under the other header value
 }
 
 // kindOf judges a candidate from a cold cache. When the oracle's outcome alone already rules out the wanted
 // kind (DuckDB rejects the candidate but the kind needs its answer, or the reverse) Arc is not executed.
 func (m *minimizer) kindOf(q *query, ordered bool, want string) string {
-	key := q.Hdr + "\x00" + strconv.FormatBool(ordered) + "\x00" + q.SQL()
+	key := q.Hdr + "\x00" + strconv.FormatBool(ordered) + strconv.FormatBool(m.pair) + "\x00" + q.SQL()
 	if k, ok := m.memo[key]; ok {
 		return k
 	}
@@ -223,7 +228,13 @@ func (m *minimizer) kindOf(q *query, ordered bool, want string) string {
 	m.runs++
 	m.w.handler.InvalidateCaches() // first execution must be cold
 	var k string
-	if want != "" && !strings.Contains(want, "warm") && !strings.Contains(want, "cold") {
+	if m.pair {
+		// the class depends on what the same text under the other header value left in the cache
+		m.w.askArc(sqlText, otherHeader(q.Hdr))
+		qq := *q
+		qq.Ordered = ordered
+		k = m.w.judgeCounted(&qq, map[string]int64{}).Kind
+	} else if want != "" && !strings.Contains(want, "warm") && !strings.Contains(want, "cold") {
 		// candidates of a class that does not depend on the cache state are judged on the cold execution
 		// only; the final minimal form is judged in full (twice) before it is reported
 		k, _ = compare(m.w.askOracle(sqlText, q.Hdr), m.w.askArc(sqlText, q.Hdr), ordered)
@@ -715,6 +726,7 @@ func main() {
 			c.Count++
 			continue
 		}
+		mz.pair = strings.HasPrefix(f.Kind, crossPrefix)
 		if k := mz.kindOf(f.Q, f.Q.Ordered, ""); k != f.Kind {
 			cleanup()
 			ev.Nondeterminism(fmt.Sprintf("%q (header %q): a worker process reported %q, the replay in the main process %q", showSQL(f.Q.SQL()), f.Q.Hdr, f.Kind, k))
@@ -741,6 +753,9 @@ func main() {
 		var detail string
 		for i := 0; i < 2; i++ {
 			w0.handler.InvalidateCaches()
+			if mz.pair {
+				w0.askArc(min.SQL(), otherHeader(min.Hdr))
+			}
 			qq := *min
 			qq.Ordered = strings.Contains(f.Kind, "order-differs")
 			v := w0.judgeCounted(&qq, map[string]int64{})
@@ -757,7 +772,10 @@ func main() {
 	tClass := time.Since(tStart) - tEnum
 	for _, c := range classes {
 		desc := fmt.Sprintf("%s; first enumerated instance: %s [header %q, family %s, template %s]", c.Detail, showSQL(c.First.Q.SQL()), c.First.Q.Hdr, c.First.Q.Fam, c.First.Q.Tmpl)
-		rep := map[string]any{"sql": c.Min.SQL(), "header": c.Min.Hdr, "kind": c.Kind, "first_instance_sql": c.First.Q.SQL(), "first_instance_header": c.First.Q.Hdr}
+		if strings.HasPrefix(c.Kind, crossPrefix) {
+			desc = "after the same text was requested with header " + strconv.Quote(otherHeader(c.Min.Hdr)) + " on the same handler: " + desc
+		}
+		rep := map[string]any{"sql": c.Min.SQL(), "header": c.Min.Hdr, "kind": c.Kind, "other_header_first": strings.HasPrefix(c.Kind, crossPrefix), "first_instance_sql": c.First.Q.SQL(), "first_instance_header": c.First.Q.Hdr}
 		for i := 0; i < c.Count; i++ {
 			run.Violate(c.Sig, desc, rep)
 		}
@@ -818,12 +836,16 @@ func replay(run *ev.Run, w *worker) {
 	must(err, "replay file")
 	var f struct {
 		Replay struct {
-			SQL    string `json:"sql"`
-			Header string `json:"header"`
+			SQL        string `json:"sql"`
+			Header     string `json:"header"`
+			OtherFirst bool   `json:"other_header_first"`
 		} `json:"replay"`
 	}
 	must(json.Unmarshal(b, &f), "replay json")
 	q := &query{Toks: []string{f.Replay.SQL}, Glue: []bool{true}, Gaps: []string{""}, Hdr: f.Replay.Header}
+	if f.Replay.OtherFirst {
+		w.askArc(f.Replay.SQL, otherHeader(f.Replay.Header))
+	}
 	v := w.judgeCounted(q, map[string]int64{})
 	fmt.Printf("C16 replay header=%q sql=%s\n  verdict=%q %s\n", q.Hdr, showSQL(q.SQL()), v.Kind, v.Detail)
 	if v.Kind != "" {
